@@ -5,25 +5,48 @@ namespace Driver
 open GM GM.Spec.CM
 
 namespace CMSpec
-/-- extra fields (only when they differ from the spelling): the same document respelled along one choice
-    axis, so that a difference can be attributed to that axis alone: `t:` without tabs (2.2), `e:` with `&`/`"` of
-    destinations and titles as entities instead of backslash escapes (2.4/2.5), `te:` both -/
-def cmsAnswer (d : Doc) : String :=
+/-- Respellings used to ATTRIBUTE a difference (asked for only when goldmark's HTML differs): the same document
+    respelled along some choice axes; the tag lists the axes: `t` leading indentation without tabs, `l` white
+    space after list markers without tabs, `d` white space after block-quote markers before link reference
+    definitions without tabs, `p` "space then tab" after a block-quote marker written as a plain tab (the tab
+    then no longer follows a consumed marker space), `q` white space after block-quote markers (other lines)
+    without tabs (2.2), `e` `&`/`"` of destinations and titles as entities instead of backslash escapes (2.4/2.5). -/
+def cmsRespell (tag : String) (d : Doc) : Doc :=
+  let d := if tag.contains 't' then { d with tabMode := 0 } else d
+  let d := if tag.contains 'l' then { d with tabList := 0 } else d
+  let d := if tag.contains 'd' then { d with tabQuoteD := 0 } else d
+  let d := if tag.contains 'p' && d.tabQuote % 3 == 2 then { d with tabQuote := 1 } else d
+  let d := if tag.contains 'p' && d.tabQuoteD % 3 == 2 then { d with tabQuoteD := 1 } else d
+  let d := if tag.contains 'q' then { d with tabQuote := 0 } else d
+  if tag.contains 'e' then entAllDoc d else d
+
+/-- single axes along which deviations are known, all of them together, then the `q` axis -/
+def cmsTags : List String := ["e", "t", "l", "d", "p", "tldpe", "q", "tldpeq"]
+
+def cmsAnswer (d : Doc) : String := s!"{hexOfBytes (spell d)} {hexOfBytes (expected d)}"
+
+def cmsAlts (d : Doc) : String :=
   let s := spell d
-  let alt (tag : String) (d' : Doc) : String := if spell d' == s then "" else s!" {tag}:{hexOfBytes (spell d')}"
-  s!"{hexOfBytes s} {hexOfBytes (expected d)}" ++ alt "t" { d with tabMode := 0 } ++ alt "e" (entAllDoc d) ++
-    alt "te" (entAllDoc { d with tabMode := 0 })
+  let alts := cmsTags.filterMap fun tag =>
+    let s' := spell (cmsRespell tag d)
+    if s' == s then none else some s!"{tag}:{hexOfBytes s'}"
+  if alts.isEmpty then "-" else " ".intercalate alts
 end CMSpec
 
 /-- `cmspec gen <seed> <size>` → `<hex spell> <hex expected>`; `cmspec enum <i>` → the i-th document of the
     exhaustive small scope (`skip` if that combination is not wellFormed, `end` past the last index);
-    `cmspec count` → size of the enumerated index space -/
+    `cmspec count` → size of the enumerated index space; `cmspec alts gen|enum …` → `tag:<hex spell>` respellings -/
 def handleCMSpec : List String → String
   | ["gen", s, z] => nat s fun seed => nat z fun size => CMSpec.cmsAnswer (gen seed size)
   | ["enum", i] => nat i fun i =>
       match enumDoc i with
       | none => "end"
       | some d => if wellFormed d then CMSpec.cmsAnswer d else "skip"
+  | ["alts", "gen", s, z] => nat s fun seed => nat z fun size => CMSpec.cmsAlts (gen seed size)
+  | ["alts", "enum", i] => nat i fun i =>
+      match enumDoc i with
+      | none => "end"
+      | some d => CMSpec.cmsAlts d
   | ["count"] => toString enumCount
   | ["wf", s, z] => nat s fun seed => nat z fun size => boolStr (wellFormed (genOnce seed size))
   | _ => bad
